@@ -38,11 +38,11 @@ ASSUMPTIONS = [
     "fault times are mapped to nanoseconds by Instant.from_seconds (temporal arithmetic is trusted)",
     "observations whose timestamp equals any window edge of the schedule are excluded (tie against the fault's own event)",
     "a network message's fate (drop / delay) is decided by the fault state at its send instant",
-    "a crashed node may lose its in-flight processes: steps after a window that interrupted a process are not demanded",
+    "a generator process loses a step only if that step is due inside a window (or within 6 ns of an edge); that step's successors are then not demanded, every other step is - also after a window the process slept through",
     "queued work that was accepted before a crash is not required to survive it; only arrivals after the last window must complete (bound: horizon = last event + total service + 60 ms)",
     "cancel() while a window is open is not generated (the statement only covers cancellation before activation)",
     "bystander logs are compared as multisets (same-instant order of pre-run vs run-created events is C01's subject)",
-    "overlapping InjectLatency / ReduceCapacity windows: only 'some extra delay' / 'capacity below configured' is demanded",
+    "overlapping InjectLatency windows add up: the delay demanded is base + the extra_ms of exactly the windows open at the send instant (+-(3+2n) ns for n windows); overlapping ReduceCapacity windows: only 'capacity below configured' is demanded",
     "a RandomPartition may block pairs inside its node set only while one of its own fault cycles is open (open cycles = recorded fault events minus heal events before the send): while open, only 'blocked while a NetworkPartition / loss window covers the send' is demanded for such pairs; while closed, and for every other pair, the full two-sided oracle applies",
     "events created during the run for a crashed target are judged by the target's state at their due time, not at creation time",
 ]
@@ -169,11 +169,14 @@ def evaluate(case: dict, faults: list, obs: dict, base: dict | None, stats: dict
         if kind in ("plain", "gen"):
             seen_h = set()
             seen_steps = set()
+            step_at: dict = {}
             for t, k, id_, x in log:
                 if k == "h":
                     seen_h.add((t, id_))
                 else:
                     seen_steps.add((id_, k, x))
+                    if k == "s":
+                        step_at[(id_, x)] = t
                 if t in edges:
                     bump("edge_observations_skipped")
                     continue
@@ -235,6 +238,47 @@ def evaluate(case: dict, faults: list, obs: dict, base: dict | None, stats: dict
                                     ("incomplete", name, t, wk["id"]),
                                     f"process id {wk['id']} on '{name}' lives in [{t},{t_end}]ns, touches no window, "
                                     f"but steps {missing} / completion are missing",
+                                )
+                            )
+                    elif hit and not cover and (t, wk["id"]) in seen_h:
+                        # The process meets a window.  Step by step: a step whose due instant lies outside every
+                        # window (6 ns clear of every edge) and whose predecessors all ran must run - also when a whole
+                        # window opened and closed while the process was asleep.  The first step due inside a window
+                        # (or on an edge) is dropped and ends the demand.
+                        prev, ok_all = t, True
+                        for i, st in enumerate(wk["steps"]):
+                            due = prev + st[0]
+                            if due + 6 >= horizon - MS or any(abs(due - ed) <= 6 for ed in edges) or any(w["s"] <= due <= w["e"] for w in W):
+                                ok_all = False
+                                break
+                            slept = [w for w in W if prev < w["s"] and w["e"] < due]
+                            bump("observations_checked")
+                            if slept:
+                                bump("process_steps_due_after_a_window_slept_through")
+                                stats["inflight_seen"] = 1
+                            if (wk["id"], i) not in step_at:
+                                ok_all = False
+                                out.append(
+                                    V(
+                                        "process-step-lost-after-window" if slept else "process-step-lost-outside-windows",
+                                        comp_of(slept or W),
+                                        f"gen/{'slept-across-whole-window' if slept else 'no-window-during-sleep'}/{'future' if len(st) > 2 and st[2] == 'f' else 'delay'}",
+                                        ("steplost", name, wk["id"], i),
+                                        f"process id {wk['id']} on '{name}': step {i} was due at ~{due}ns (previous stage ran at {prev}ns), outside "
+                                        f"every window {[(w['type'], w['s'], w['e']) for w in W]}, and never ran; windows slept through: "
+                                        f"{[(w['type'], w['s'], w['e']) for w in slept]}",
+                                    )
+                                )
+                                break
+                            prev = step_at[(wk["id"], i)]
+                        if ok_all and (name, wk["id"]) not in sink_done:
+                            out.append(
+                                V(
+                                    "process-step-lost-outside-windows",
+                                    comp_of(W),
+                                    "gen/completion",
+                                    ("steplost", name, wk["id"], "done"),
+                                    f"process id {wk['id']} on '{name}' ran all its steps outside the windows but its completion event never reached the sink",
                                 )
                             )
         else:  # queue-fronted targets
@@ -465,16 +509,23 @@ def evaluate(case: dict, faults: list, obs: dict, base: dict | None, stats: dict
                                 f"{[(w['s'], w['e']) for w in di]}",
                             )
                         )
-                    elif len(dc) == 1 and not di:
-                        want = b0 + int(dc[0]["f"]["extra_ms"] * MS)
-                        if abs(delay - want) > TOL_NS:
+                    else:
+                        want = b0 + sum(int(w["f"]["extra_ms"] * MS) for w in dc)
+                        if abs(delay - want) > TOL_NS + 2 * len(dc):
+                            if di:
+                                fifo = any(w2["s"] < w["s"] for w2 in di for w in dc)
+                                lshape = "earlier-opened-window-closed-first" if fifo else "nested-window-closed"
+                            else:
+                                lshape = "single-window" if len(dc) == 1 else "concurrent-windows-none-ended"
                             out.append(
                                 V(
                                     "latency-wrong-amount",
                                     "InjectLatency",
-                                    dword,
+                                    lshape,
                                     ("lat", mid),
-                                    f"message {mid} {src}>{dst} sent at t={ts}ns took {delay}ns, expected {want}ns",
+                                    f"message {mid} {src}>{dst} sent at t={ts}ns took {delay}ns, expected {want}ns = base {b0}ns + the extras of "
+                                    f"the open windows {[(w['f']['extra_ms'], w['s'], w['e']) for w in dc]}; windows that ended inside them: "
+                                    f"{[(w['f']['extra_ms'], w['s'], w['e']) for w in di]}",
                                 )
                             )
             else:
@@ -808,7 +859,7 @@ def _gen_windows(rng: random.Random, n: int, lo: int, hi: int, open_ok: bool = F
                 s, e = rs, rs + rng.randrange(1, 2 * ln + 2)
             else:
                 s, e = max(lo - 4, re - rng.randrange(1, 2 * ln + 2)), re
-        s = max(1, s)
+        s = min(max(1, s), hi + 39)
         e = min(max(e, s + 1), hi + 40)
         wins.append([s, e])
     if open_ok and wins and rng.random() < 0.2:
@@ -909,6 +960,14 @@ def _node_workload(rng, node, win_ms, T_ms, ids, scale=1.0):
                 ts.append(max(5, s * MS - rng.choice([1, 1000, 200_000, 2 * MS, 10 * MS, 30 * MS])))
         for t in ts:
             out.append({"id": next(ids), "to": name, "t": t, "steps": _gen_steps(rng)})
+        for s, e in win_ms:  # aimed: started before the window, first wake-up due after its end (sleeps through it)
+            if e is None or rng.random() > 0.6:
+                continue
+            for _ in range(rng.randrange(1, 3)):
+                t0 = max(5, s * MS - rng.choice([3, 1000, 500_000, 3 * MS]) - rng.randrange(0, 999))
+                wake = e * MS + rng.choice([7, 1000, 1 * MS, 6 * MS]) + rng.randrange(0, 999)
+                first = [wake - t0, int(rng.random() < 0.4), "f" if rng.random() < 0.25 else "d"]
+                out.append({"id": next(ids), "to": name, "t": t0, "steps": [first] + _gen_steps(rng, nmax=2)})
     else:
         n = int(rng.randrange(8, 30) * scale)
         ts = set()
